@@ -1,21 +1,23 @@
 (** C09: the tie between the atom model and lib/concurrent/concurrent.go.  The action sequences the
     translator extracts on every run (Gen/ConcActions.v) are exactly the sequences ConcAtom.step
     follows, and every function of the file guards Atom.Val by the atom's RWMutex. *)
-From Lisp Require Import Base Lockset LocksetProofs LinCheck ConcAtom PinsCommon Gen.ConcActions.
+From Lisp Require Import Base Lockset LocksetProofs LinCheck ConcAtom Paths PinsCommon Gen.ConcActions.
 Local Open Scope nat_scope.
 
-(** swap!:  [If( Return )] the non-atom guard;  Lock: Idle->SwapLocked;  DeferUnlock: the Unlock
-    steps of SwapWritten / SwapFailed;  Read:Val: SwapLocked->SwapRead;  Apply + If( Return ):
-    SwapRead->SwapFailed when the update fails;  WriteVal: SwapRead->SwapWritten;  Return. *)
-Definition expected_swap := toks ["If("; "Return"; ")"; "Lock"; "DeferUnlock"; "Read:Val"; "Apply"; "If("; "Return"; ")"; "WriteVal"; "Return"]%string.
-Definition expected_reset := toks ["If("; "Return"; ")"; "Lock"; "DeferUnlock"; "WriteVal"; "Return"]%string.
-Definition expected_deref := toks ["RLock"; "DeferRUnlock"; "Read:Val"; "Return"]%string.
-Definition expected_print := toks ["RLock"; "Read:Val"; "RUnlock"; "Apply"; "Return"]%string.
+(** The paths of each function (Paths.fn_paths: every branch, deferred unlocks expanded at the returns), as
+    sets.  ConcAtom.step follows exactly these: swap! either returns at once (the non-atom guard), or
+    Lock (Idle->SwapLocked), Read:Val (->SwapRead), Apply and then either the early return with the
+    unlock (SwapFailed->Idle) or WriteVal (->SwapWritten) and the unlock (->Idle). *)
+Definition swap_paths : list (list pev) :=
+  [ []; [PLock; rd "Val"; tk "Apply"; PUnlock]; [PLock; rd "Val"; tk "Apply"; wr "Val"; PUnlock] ].
+Definition reset_paths : list (list pev) := [ []; [PLock; wr "Val"; PUnlock] ].
+Definition deref_paths : list (list pev) := [ [PRLock; rd "Val"; PRUnlock] ].
+Definition print_paths : list (list pev) := [ [PRLock; rd "Val"; PRUnlock; tk "Apply"] ].
 
-Lemma swap_actions : conc_swap_BANG = expected_swap. Proof. reflexivity. Qed.
-Lemma reset_actions : conc_reset_BANG = expected_reset. Proof. reflexivity. Qed.
-Lemma deref_actions : conc_Atom_Deref = expected_deref. Proof. reflexivity. Qed.
-Lemma print_actions : conc_Atom_LispPrint = expected_print. Proof. reflexivity. Qed.
+Lemma swap_actions : same_paths (fn_paths conc_swap_BANG) swap_paths = true. Proof. vm_compute. reflexivity. Qed.
+Lemma reset_actions : same_paths (fn_paths conc_reset_BANG) reset_paths = true. Proof. vm_compute. reflexivity. Qed.
+Lemma deref_actions : same_paths (fn_paths conc_Atom_Deref) deref_paths = true. Proof. vm_compute. reflexivity. Qed.
+Lemma print_actions : same_paths (fn_paths conc_Atom_LispPrint) print_paths = true. Proof. vm_compute. reflexivity. Qed.
 
 Definition val_shared (f : str) : bool := str_eqb f (s_ "Val").
 
